@@ -2,7 +2,7 @@
 from .. import sym
 from ..evalfn import SELF
 from ..sym import canon
-from . import core_rules
+from . import core_rules, backtest_rules, tree_rules
 from .algo_equiv import check_equiv
 from .c04 import algo_classes
 from .common import ALGOS, G, plain, short
@@ -277,3 +277,10 @@ def run(chk):
         check_equiv(chk, "C15.R1", ALGOS, cls, "__call__", src, "documented-weights", "%s: %s" % (cls, what), limit=16)
     immutability(chk)
     core_rules.fresh_read_rules(chk, "C15")
+    # what the weighting algos read: named data exactly as supplied (WeighTarget relies on "no row at now"), a dynamic child's own tables, aggregated positions (PTE_Rebalance)
+    backtest_rules.additional_data_only_prepended(chk)
+    tree_rules.setup_from_parent_rules(chk, "C15")
+    from .c18 import REFS as REPORT_REFS
+    for mod, cls, name, src, what in REPORT_REFS:
+        if (cls, name) == ("StrategyBase", "positions"):
+            check_equiv(chk, "C18.R1", mod, cls, name, src, "report-formula", "%s.%s: %s" % (cls, name, what), no_inline=("update", "get_transactions"), limit=14)
